@@ -1,6 +1,6 @@
 """C08 — addresses and output scripts are in one-to-one correspondence on every usable registered network."""
 from vmon.probe import shard_rng, observe
-from vmon.refs import b58 as RB, bech32 as R32, ec as REC, keytext as KT
+from vmon.refs import b58 as RB, bech32 as R32, ec as REC, keytext as KT, bip32 as RB32
 from vmon.gen import nets as NETS
 
 PROPERTY = "C08"
@@ -10,7 +10,9 @@ TECHNIQUE = ("runtime monitor on address.for_script / parse.address / contract.i
              "usable network; expected texts and scripts from an independent Base58Check/Bech32/template model; all ordered "
              "network pairs for cross-acceptance; mutated-template and random scripts for classification fidelity; one text object "
              "(parseable_str / str) offered to many networks and entry points in varying order; Base58 addresses constructed "
-             "arithmetically to begin with the HRP / key-text / name tags of the network")
+             "arithmetically to begin with the HRP / key-text / name tags of the network; key.address / key.hash160 / ku_output address "
+             "lines on key objects from every public source (constructors, SEC, pair, WIF and other text parsers, BIP32/49/84 and "
+             "Electrum nodes, override_network) and on their public copies / children, in generated query orders")
 RULE = ("cases: (network, kind, hash) for kind in P2PKH/P2SH/P2WPKH/P2WSH/P2TR x hashes {zeros, ff, random}; (network, key, "
         "compression) for plain / BIP32 / BIP49 / BIP84 / electrum keys; (network, text) for checksummed strings with each "
         "declared Base58 prefix x payload length 0..40 (and the key lengths) and bech32/bech32m strings with the HRP x version "
@@ -22,6 +24,12 @@ RULE = ("cases: (network, kind, hash) for kind in P2PKH/P2SH/P2WPKH/P2WSH/P2TR x
         "object (network.parseable_str_type(text) or one str) x a sequence of (network, entry point) calls: every usable "
         "network in random order, every related network (same network_name / prefix / HRP) before and after the producer, "
         "every address entry point of one network in random order, with unjudged key-parser calls interleaved. "
+        "key histories = (network, secret in {1, 2, n-1, r, n-r}, source of the key object, steps): one fresh object per history; "
+        "steps = address / hash160 with no argument, is_compressed=None, True, False; ku_output; unjudged accessor calls "
+        "(fingerprint, sec, wif, as_text, repr ...); public_copy; subkey / subkey_for_path (hardened, .pub) on nodes; Electrum "
+        "subkey; the identity paths of a plain key; every history opens with one of 15 opening classes (each first query, "
+        "ku first, copy first, query then copy, both forms then copy, derive first, copy then original) and ends with all "
+        "six judged queries on every object of the history in random order. "
         "Non-trivial = non-empty script or text; distinct by the case tuple.")
 ASSUMPTIONS = [
     "declared prefixes / HRP are read from the network object; for BTC, XTN, XRT, LTC, XLT, DOGE, DASH, ZEC they are additionally "
@@ -41,6 +49,18 @@ ASSUMPTIONS = [
     "accept nothing it would not write; upper / mixed-case bech32 may be accepted or rejected",
     "results must not depend on what the caller did to dicts returned earlier (Contract.info(), info_for_script) and for_info "
     "must not modify the dict it is given",
+    "key histories: key.address(is_compressed=c) / key.hash160(is_compressed=c) speak about the encoding c of the key's point; "
+    "with no argument or None they speak about the form the key object was made in: the form named in the constructor call, "
+    "of the SEC bytes, of the WIF payload (33 bytes ending 01 = compressed, 32 bytes = uncompressed), compressed for BIP32/49/84 "
+    "nodes, uncompressed for Electrum (v1) keys; where the source does not say (a bare secret or public pair read from text, "
+    "override_network) the first default answer of the object fixes it; public_copy, the identity paths of a plain key and "
+    "repeated queries keep it. BIP49 / BIP84 node addresses with an explicit form are the P2SH-P2WPKH / P2WPKH address of that "
+    "encoding's hash",
+    "ku_output: the lines hash160, address, <SYM>_address, address_segwit, p2sh_segwit, p2sh_segwit_script speak about the "
+    "compressed encoding and the *_uncompressed lines about the uncompressed one (the output's own annotation); for BIP49 / BIP84 "
+    "nodes 'address' is the node address; other lines, missing lines and an exception from ku_output are not judged here",
+    "which object a text parser, a derivation or override_network returns is C18's / C09's subject: a history is only run when "
+    "the object obtained has the expected public pair; constructors called with valid arguments must work",
 ]
 EXPLANATION = ("round trip, independent expected text, key address, acceptance-implies-canonical, cross-network acceptance and "
                "classification fidelity are each decided by comparison with the reference model; nothing is inferred from pycoin's own output alone")
@@ -72,6 +92,8 @@ def plan(tier, seed):
     else:
         nn, nc, ns, nr, scale, scripts = 16, 16, 32, 16, 400, 40000000
     shards = [{"kind": "nets", "slice": i, "of": nn, "scale": scale, "label": "nets%d" % i} for i in range(nn)]
+    nk = 4 if tier == "quick" else 16
+    shards += [{"kind": "keys", "slice": i, "of": nk, "scale": scale, "label": "keys%d" % i} for i in range(nk)]
     shards += [{"kind": "cross", "slice": i, "of": nc, "scale": scale, "label": "cross%d" % i} for i in range(nc)]
     shards += [{"kind": "reuse", "slice": i, "of": nr, "scale": scale, "label": "reuse%d" % i} for i in range(nr)]
     shards += [{"kind": "classify", "slice": i, "of": ns, "n": scripts // ns, "label": "classify%d" % i} for i in range(ns)]
@@ -79,7 +101,10 @@ def plan(tier, seed):
 
 
 def selftest(rec):
-    return {"b58_vectors": RB.selftest(), "bech32_vectors": R32.selftest(), "keytext_vectors": KT.selftest()}
+    out = {"b58_vectors": RB.selftest(), "bech32_vectors": R32.selftest(), "keytext_vectors": KT.selftest(), "bip32_vectors": RB32.selftest()}
+    for se in (1, 2, N - 1, 0xdeadbeef):
+        assert RB32.point(se) == KT.pubpoint(se)
+    return out
 
 
 def rbytes(rng, n):
@@ -447,6 +472,384 @@ def check_key(sym, net, P, se, rec):
         st, got = observe(w.address)
         if st != "ok" or got != exp[False]:
             rec.violation("key.electrum_address_differs_from_reference", case, got, exp[False])
+
+
+# ---------------------------------------------------------------------------------------------
+# (iii) on every key object the public API hands out, in every query order.
+# A key object keeps what it computed (hash memo slots, a default form, cached children) and hands state on to the objects
+# made from it (public_copy, subkey, override_network). One history = one fresh source object + a sequence of steps on it and
+# on the objects derived from it; every address / hash160 answer (and every address line of ku_output) is compared with the
+# reference for (point, requested encoding, address family), whatever was asked before and on whichever object.
+
+FORM_KW = {"d": {}, "n": {"is_compressed": None}, "T": {"is_compressed": True}, "F": {"is_compressed": False}}
+NODE_META = (3, b"\x01\x02\x03\x04", 5, bytes(range(32)))      # depth, parent fingerprint, child number, chain code
+HIER = ("bip32", "bip49", "bip84")
+NOISE_Q = ("fingerprint", "sec", "sec_as_hex", "wif", "as_text", "repr", "is_compressed", "public_pair", "secret_exponent")
+OPENINGS = ("a.d", "a.T", "a.F", "a.n", "h.d", "h.T", "h.F", "h.n", "ku", "copy", "query_copy", "noise", "both_copy", "derive", "copy_original")
+
+
+class Ident(object):
+    """what the reference knows about one key object: its point, the form it was made in, the family of its address."""
+
+    def __init__(self, P, fam, pt, dform, private, node=None, origin="source", memo=None):
+        self.P, self.fam, self.pt, self.dform, self.private, self.node, self.origin = P, fam, pt, dform, private, node, origin
+        self.memo = {} if memo is None else memo
+
+    def h(self, c):
+        if ("h", c) not in self.memo:
+            self.memo["h", c] = KT.hash160(KT.sec_of(self.pt, c))
+        return self.memo["h", c]
+
+    def p2pkh(self, c):
+        return KT.address_text(self.P, "p2pkh", self.h(c))
+
+    def wit(self, c):
+        return KT.script_witness(0, self.h(c))
+
+    def p2wpkh(self, c):
+        return KT.address_text(self.P, "p2pkh_segwit", self.h(c))
+
+    def p2sh_p2wpkh(self, c):
+        return KT.address_text(self.P, "p2sh", KT.hash160(self.wit(c)))
+
+    def addr(self, c):
+        k = ("a", self.fam, c)
+        if k not in self.memo:
+            self.memo[k] = self.p2sh_p2wpkh(c) if self.fam == "bip49" else self.p2wpkh(c) if self.fam == "bip84" else self.p2pkh(c)
+        return self.memo[k]
+
+    def derived(self, origin, private=None):
+        prv = self.private if private is None else private
+        node = self.node if (self.node is None or prv) else self.node.neuter()
+        return Ident(self.P, self.fam, self.pt, self.dform, prv, node, origin, self.memo)
+
+    def ku_lines(self):
+        """address lines of ku_output the reference has a value for (None = the line must not appear with a text)."""
+        if self.fam in ("bip49", "bip84"):
+            return {"address": self.addr(True)}
+        s = self.P.symbol
+        seg = self.p2wpkh(True)
+        return {"hash160": self.h(True).hex(), "hash160_uncompressed": self.h(False).hex(),
+                "address": self.p2pkh(True), s + "_address": self.p2pkh(True),
+                "address_uncompressed": self.p2pkh(False), s + "_address_uncompressed": self.p2pkh(False),
+                "address_segwit": seg, s + "_address_segwit": seg,
+                "p2sh_segwit": self.p2sh_p2wpkh(True), "p2sh_segwit_script": self.wit(True).hex()}
+
+
+def source_group(name):
+    parts = name.split(".wif_")[0].split(".")
+    if parts[-1] in ("c", "u", "kw_c", "pos_u", "prv", "pub", "tagged_c", "tagged_u", "sec_c", "sec_u"):
+        parts.pop()
+    return ".".join(parts)
+
+
+def _keylike(o):
+    return o is not None and all(callable(getattr(o, a, None)) for a in ("address", "hash160", "public_pair", "public_copy"))
+
+
+def key_sources(net, P, se, pt, other_net):
+    """every public way of getting a key object for the secret `se` / the point `pt` on this network.
+    -> [(name, thunk, family, default form (None = the source does not say), private, api)]; api = a constructor called with
+    valid arguments (must not raise); the parsers are C18's subject and only hand over the object when they return one."""
+    secs = {c: KT.sec_of(pt, c) for c in (True, False)}
+    pair = (pt[0], pt[1])
+    depth, pfp, idx, chain = NODE_META
+    blob = {True: KT.node_blob(depth, pfp, idx, chain, se=se), False: KT.node_blob(depth, pfp, idx, chain, point=pt)}
+    pad = b"\0\0\0\0"
+    S = []
+
+    def add(name, thunk, fam="key", dform=True, private=True, api=True):
+        S.append((name, thunk, fam, dform, private, api))
+
+    add("keys.private", lambda: net.keys.private(se))
+    add("keys.private.c", lambda: net.keys.private(se, True))
+    add("keys.private.kw_c", lambda: net.keys.private(se, is_compressed=True))
+    add("keys.private.u", lambda: net.keys.private(se, is_compressed=False), dform=False)
+    add("keys.private.pos_u", lambda: net.keys.private(se, False), dform=False)
+    add("keys.public.pair", lambda: net.keys.public(pair), private=False)
+    add("keys.public.pair.c", lambda: net.keys.public(pair, is_compressed=True), private=False)
+    add("keys.public.pair.u", lambda: net.keys.public(pair, is_compressed=False), dform=False, private=False)
+    for c, tag in ((True, "c"), (False, "u")):
+        add("keys.public.sec." + tag, lambda c=c: net.keys.public(secs[c]), dform=c, private=False)
+        add("key_class.from_sec." + tag, lambda c=c: type(net.keys.public(pair)).from_sec(secs[c]), dform=c, private=False)
+        add("key_class.init." + tag, lambda c=c: type(net.keys.public(pair))(secret_exponent=se, is_compressed=c), dform=c)
+    if P.wif is not None:
+        for c, tag in ((True, "c"), (False, "u")):
+            t = KT.wif_text(P, se, c)
+            for entry in ("wif", "private_key", "secret", "call"):
+                add("parse.%s.wif_%s" % (entry, tag), lambda t=t, entry=entry: (ENTRY.get(entry) or NOISE[entry])(net, t), dform=c, api=False)
+    add("parse.secret_exponent", lambda: net.parse.secret_exponent(str(se)), dform=None, api=False)
+    add("parse.private_key.number", lambda: net.parse.private_key(str(se)), dform=None, api=False)
+    for c, tag in ((True, "c"), (False, "u")):
+        hx = secs[c].hex()
+        add("parse.sec." + tag, lambda hx=hx: net.parse.sec(hx), dform=c, private=False, api=False)
+        add("parse.public_key.sec_" + tag, lambda hx=hx: net.parse.public_key(hx), dform=c, private=False, api=False)
+        if isinstance(P.sec_prefix, str) and P.sec_prefix:
+            add("parse.sec.tagged_" + tag, lambda hx=hx: net.parse.sec(P.sec_prefix + hx), dform=c, private=False, api=False)
+    add("parse.public_pair", lambda: net.parse.public_pair("%d/%d" % pair), dform=None, private=False, api=False)
+    add("parse.public_pair.parity", lambda: net.parse.public_pair("%d/%s" % (pair[0], "odd" if pair[1] & 1 else "even")), dform=None, private=False, api=False)
+    add("parse.public_key.pair", lambda: net.parse.public_key("%d,%d" % pair), dform=None, private=False, api=False)
+    for fam in HIER:
+        for prv, tag in ((True, "prv"), (False, "pub")):
+            add("keys.%s_deserialize.%s" % (fam, tag), lambda fam=fam, prv=prv: getattr(net.keys, fam + "_deserialize")(pad + blob[prv]), fam=fam, private=prv)
+            prefix = P.prefix("%s_%s" % (fam, tag))
+            if prefix is not None:
+                text = RB.encode_check(prefix + blob[prv])
+                add("parse.%s.%s" % (fam, tag), lambda fam=fam, text=text: getattr(net.parse, fam)(text), fam=fam, private=prv, api=False)
+                add("parse.%s_%s" % (fam, tag), lambda fam=fam, tag=tag, text=text: getattr(net.parse, "%s_%s" % (fam, tag))(text), fam=fam, private=prv, api=False)
+                if fam == "bip32":
+                    add("parse.hierarchical_key." + tag, lambda text=text: net.parse.hierarchical_key(text), fam=fam, private=prv, api=False)
+                    if prv:
+                        add("parse.secret.bip32", lambda text=text: net.parse.secret(text), fam=fam, api=False)
+                        add("parse.call.bip32", lambda text=text: net.parse(text), fam=fam, api=False)
+    add("keys.electrum_private", lambda: net.keys.electrum_private(master_private_key=se), fam="electrum", dform=False)
+    add("keys.electrum_public", lambda: net.keys.electrum_public(master_public_key=secs[False][1:]), fam="electrum", dform=False, private=False)
+    add("parse.electrum_prv", lambda: net.parse.electrum_prv("E:" + se.to_bytes(32, "big").hex()), fam="electrum", dform=False, api=False)
+    add("parse.electrum_pub", lambda: net.parse.electrum_pub("E:" + secs[False][1:].hex()), fam="electrum", dform=False, private=False, api=False)
+    add("parse.hierarchical_key.electrum", lambda: net.parse.hierarchical_key("E:" + se.to_bytes(32, "big").hex()), fam="electrum", dform=False, api=False)
+    if other_net is not None:
+        for c, tag in ((True, "c"), (False, "u")):
+            add("override_network.key." + tag, lambda c=c: other_net.keys.private(se, c).override_network(net), dform=None, api=False)
+        for prv, tag in ((True, "prv"), (False, "pub")):
+            add("override_network.bip32." + tag, lambda prv=prv: other_net.keys.bip32_deserialize(pad + blob[prv]).override_network(net), fam="bip32", private=prv, api=False)
+    return S
+
+
+def gen_key_steps(rng, fam, private, opening, length):
+    """one history: an opening class, a random body over every step type, then all six judged queries on every object."""
+    steps = []
+    objs = [(private, 0)]                # (private, derivation depth) per object index
+
+    def q(i, op=None, f=None):
+        return "q%d.%s.%s" % (i, op or rng.choice("ah"), f or rng.choice("dnTF"))
+
+    def noise(i):
+        return "n%d.%s.%s" % (i, rng.choice(NOISE_Q), rng.choice("dTF"))
+
+    def copy(i):
+        objs.append((False, objs[i][1]))
+        return "c%d" % i
+
+    def derive(i):
+        prv, depth = objs[i]
+        if fam in HIER:
+            n = rng.choice([0, 1, 2, 7, 44, 0x7fffffff, rng.randrange(1 << 31)])
+            hard = prv and rng.random() < 0.4
+            pub = prv and rng.random() < 0.3
+            objs.append((prv and not pub, depth + 1))
+            return "%s%d.%d%s%s" % (rng.choice("sp"), i, n, "H" if hard else "", ".pub" if pub else "")
+        if fam == "electrum":
+            objs.append((prv, depth + 1))
+            return "e%d.%d-%d" % (i, rng.choice([0, 1, 2, 9, rng.randrange(1000)]), rng.choice([0, 0, 1]))
+        objs.append((prv, depth))
+        return "i%d.%s" % (i, rng.choice(["subkey", "subkey_for_path", "subkeys"]))
+
+    if opening in ("a.d", "a.T", "a.F", "a.n", "h.d", "h.T", "h.F", "h.n"):
+        steps.append(q(0, *opening.split(".")))
+    elif opening == "ku":
+        steps.append("k0")
+    elif opening == "copy":
+        steps += [copy(0), q(1)]
+    elif opening == "query_copy":
+        steps += [q(0), copy(0), q(1)]
+    elif opening == "noise":
+        steps += [noise(0), q(0)]
+    elif opening == "both_copy":
+        first = rng.choice("TF")
+        steps += [q(0, None, first), q(0, None, "F" if first == "T" else "T"), copy(0), q(1, None, first)]
+    elif opening == "derive":
+        steps += [derive(0), q(1)]
+    elif opening == "copy_original":
+        steps += [copy(0), q(1), q(0), q(1)]
+    derived = sum(1 for s in steps if s[0] in "spe")
+    for _ in range(length):
+        r = rng.random()
+        i = rng.randrange(len(objs))
+        if r < 0.55:
+            steps.append(q(i))
+        elif r < 0.63:
+            steps.append("k%d" % i)
+        elif r < 0.77:
+            steps.append(noise(i))
+        elif r < 0.89 and len(objs) < 4:
+            steps.append(copy(i))
+        elif len(objs) < 4 and derived < 2 and objs[i][1] < 2:
+            steps.append(derive(i))
+            derived += steps[-1][0] in "spe"
+        else:
+            steps.append(q(i))
+    closing = [q(i, op, f) for i in range(len(objs)) for op in "ah" for f in "dTF"]
+    rng.shuffle(closing)
+    return steps + closing
+
+
+def run_key_history(sym, net, P, se, source, steps, rec, other_sym=None, other_net=None, pt=None):
+    case = {"op": "keyhist", "net": sym, "se": se, "source": source, "steps": " ".join(steps), "other": other_sym}
+    rec.case(("keyhist", sym, se, source, tuple(steps)))
+    pt = pt or RB32.point(se)
+    src = [s for s in key_sources(net, P, se, pt, other_net) if s[0] == source]
+    if not src:
+        rec.ev("keyhist.source_not_declared_here")
+        return
+    _, thunk, fam, dform, private, api = src[0]
+    st, key = observe(thunk)
+    if st != "ok" or not _keylike(key) or observe(key.public_pair)[1] != pt:
+        if api:
+            rec.violation("keyhist.construction_fails", case, key, "key object for the point")
+        else:
+            rec.ev("keyhist.source_gave_no_key")
+        return
+    rec.ev("keyhist.history")
+    rec.ev("keyhist.source." + source_group(source))
+    rec.ev("keyhist.family." + fam)
+    depth, pfp, idx, chain = NODE_META
+    node = RB32.Node(se if private else None, pt, chain, depth, pfp, idx) if fam in HIER else None
+    objs = [(key, Ident(P, fam, pt, dform, private, node))]
+    asked = set()
+    for n, tok in enumerate(steps):
+        head, _, rest = tok.partition(".")
+        kind, i = head[0], int(head[1:])
+        if i >= len(objs) or objs[i][0] is None:
+            continue                       # an earlier step did not produce its object (counted there)
+        obj, idn = objs[i]
+        here = dict(case, failing_step=n, token=tok, object=idn.origin)
+        if kind == "q":
+            op, f = rest.split(".")
+            rec.ev("key.address" if op == "a" else "key.hash160")
+            rec.ev("keyhist.query.%s.%s" % (op, f))
+            if n == 0:
+                rec.ev("keyhist.first_query.%s.%s" % (op, f))
+            if idn.origin != "source":
+                rec.ev("keyhist.query_on_" + idn.origin)
+            if ("ku", i) in asked:
+                rec.ev("keyhist.query_after_ku")
+            if f == "T" and idn.dform is False or f == "F" and idn.dform is True:
+                rec.ev("keyhist.query_other_form_than_default")
+                if idn.origin == "copy":
+                    rec.ev("keyhist.query_other_form_on_copy")
+            if op == "a" and ("h", i) in asked:
+                rec.ev("keyhist.address_after_hash160")
+            if any(k == "c" and j == i for k, j in asked) and idn.origin == "source":
+                rec.ev("keyhist.query_original_after_copy")
+            asked.add((op, i))
+            st, got = observe(obj.address if op == "a" else obj.hash160, **FORM_KW[f])
+            ref = idn.addr if op == "a" else idn.h
+            form = idn.dform if f in "dn" else f == "T"
+            if form is None:
+                # the source does not fix the default form: the first default answer decides it for this object
+                form = True if (st, got) == ("ok", ref(True)) else False
+                idn.dform = form
+                rec.ev("keyhist.default_form_taken_from_first_answer")
+            want = ref(form)
+            if st != "ok" or got != want:
+                what = "address" if op == "a" else "hash160"
+                mech = "keyhist.%s_%s.%s.%s" % (what, "of_other_encoding" if st == "ok" and got == ref(not form) and got != want else "differs_from_reference", idn.fam, idn.origin)
+                rec.violation(mech, here, got, want)
+                return
+        elif kind == "k":
+            rec.ev("keyhist.ku_output")
+            asked.add(("ku", i))
+            st, lines = observe(lambda: list(obj.ku_output()))
+            if st != "ok":
+                rec.ev("keyhist.ku_output_raises")
+                continue
+            want = idn.ku_lines()
+            for line in lines:
+                name, val = line[0], line[1]
+                if name in want and val != want[name]:
+                    cls = "hash160" if name.startswith("hash160") else "script" if name.endswith("script") else "address"
+                    rec.violation("keyhist.ku_%s_line_differs_from_reference.%s.%s" % (cls, idn.fam, idn.origin), dict(here, line=name), val, want[name])
+                    return
+                if name in want:
+                    rec.ev("keyhist.ku_line_judged")
+        elif kind == "n":
+            name, f = rest.split(".")
+            rec.ev("keyhist.noise_call")
+            if name in ("fingerprint", "sec", "sec_as_hex", "wif"):
+                observe(getattr(obj, name), **FORM_KW[f])
+            elif name == "repr":
+                observe(repr, obj)
+            else:
+                observe(getattr(obj, name))
+        else:
+            if kind == "c":
+                rec.ev("keyhist.public_copy")
+                st, new = observe(obj.public_copy)
+                nid = idn.derived("copy" if idn.private or idn.origin == "copy" else idn.origin, private=False)
+            elif kind == "i":
+                rec.ev("keyhist.identity_path")
+                st, new = observe((lambda: next(iter(obj.subkeys()))) if rest == "subkeys" else (lambda: obj.subkey_for_path("")) if rest == "subkey_for_path" else obj.subkey)
+                nid = idn.derived(idn.origin)
+            elif kind == "e":
+                rec.ev("keyhist.electrum_subkey")
+                a, b = (int(x) for x in rest.split("-"))
+                st, new = observe(obj.subkey, "%d/%d" % (a, b))
+                _, cpt = RB32.electrum_child(None, idn.pt, a, b)
+                nid = Ident(P, fam, cpt, False, idn.private, None, "child")
+            else:
+                rec.ev("keyhist.bip32_subkey")
+                pub = rest.endswith(".pub")
+                path = rest[:-4] if pub else rest
+                hard = path.endswith("H")
+                num = int(path.rstrip("H"))
+                if kind == "s":
+                    st, new = observe(obj.subkey, i=num, is_hardened=hard, as_private=False if pub else None)
+                else:
+                    st, new = observe(obj.subkey_for_path, rest)
+                try:
+                    child = RB32.derive(idn.node, [num | (RB32.HARD if hard else 0)])
+                except RB32.Invalid:
+                    objs.append((None, None))
+                    continue
+                cprv = idn.private and not pub
+                nid = Ident(P, fam, child.K, True, cprv, child if cprv else child.neuter(), "child")
+            if st != "ok" or not _keylike(new) or observe(new.public_pair)[1] != nid.pt:
+                # which key comes out of a derivation is C09's subject; here only addresses of the objects obtained are judged
+                rec.ev("keyhist.derived_object_not_obtained")
+                objs.append((None, None))           # keeps the numbering; later steps naming it are skipped
+                continue
+            objs.append((new, nid))
+            asked.add((kind, i))
+
+
+def key_history_workload(sym, net, P, se, rng, rec, reps, other, counter):
+    other_sym, other_net = other
+    pt = RB32.point(se)
+    for name, _, fam, _, private, _ in key_sources(net, P, se, pt, other_net):
+        for _ in range(reps):
+            opening = OPENINGS[counter[0] % len(OPENINGS)]
+            counter[0] += 1
+            steps = gen_key_steps(rng, fam, private, opening, rng.choice([2, 4, 6]))
+            rec.ev("keyhist.opening." + opening)
+            run_key_history(sym, net, P, se, name, steps, rec, other_sym, other_net, pt)
+
+
+def run_keys(spec, rec, good):
+    mine = good[spec["slice"]::spec["of"]]
+    scale = spec.get("scale", 1)
+    counter = [spec["slice"]]
+    for sym, net in mine:
+        rng = shard_rng(spec["seed"], PROPERTY, spec["tier"], "keys:" + sym)
+        P = NETS.params_of(net)
+        k = [s for s, _ in good].index(sym)
+        other = good[(k + 1 + rng.randrange(len(good) - 1)) % len(good)]
+        # a secret and its negative share the x coordinate; small secrets are shared by all networks of the shard
+        ses = [1, N - 1, 2]
+        for _ in range(1 if scale <= 4 else scale // 8):
+            r = rng.randrange(1, N)
+            ses += [r, N - r]
+        for se in ses:
+            key_history_workload(sym, net, P, se, rng, rec, 1 if scale <= 4 else 3, other, counter)
+            counter[0] += 1                 # openings rotate against the source list
+        rec.ev("keys.net." + sym)
+    rec.require("keyhist.history", "keyhist.public_copy", "keyhist.ku_output", "keyhist.ku_line_judged", "keyhist.query_after_ku",
+                "keyhist.query_on_copy", "keyhist.query_on_child", "keyhist.query_other_form_than_default", "keyhist.query_other_form_on_copy",
+                "keyhist.address_after_hash160", "keyhist.query_original_after_copy", "keyhist.bip32_subkey", "keyhist.electrum_subkey",
+                "keyhist.identity_path", "keyhist.source.keys.private", "keyhist.source.keys.public.pair", "keyhist.source.keys.public.sec",
+                "keyhist.source.parse.wif", "keyhist.source.parse.sec", "keyhist.source.keys.electrum_private", "keyhist.source.override_network.key",
+                "keyhist.family.bip32", "keyhist.family.bip49", "keyhist.family.bip84", "keyhist.family.electrum")
+    rec.require(*["keyhist.first_query.%s.%s" % (op, f) for op in "ah" for f in "dTFn"])
+    rec.require(*["keyhist.opening." + o for o in OPENINGS])
 
 
 # ---------------------------------------------------------------------------------------------
@@ -987,7 +1390,7 @@ def run_shard(spec, rec):
     good, skipped = NETS.usable_networks()
     NETS.require_registry(rec, good, skipped)
     with contextlib.redirect_stdout(io.StringIO()):
-        {"nets": run_nets, "cross": run_cross, "classify": run_classify, "reuse": run_reuse}[spec["kind"]](spec, rec, good)
+        {"nets": run_nets, "cross": run_cross, "classify": run_classify, "reuse": run_reuse, "keys": run_keys}[spec["kind"]](spec, rec, good)
     if spec["kind"] == "nets":
         rec.require("address.for_script", "parse.address", "contract.info_for_script", "contract.for_info", "key.address",
                     "bip49.address", "bip84.address", "parse.address.accepts", "parse.address.rejects", "address.direct_encoders",
@@ -1017,6 +1420,9 @@ def replay_case(case, rec):
         check_published(sym, net, P, rec)
     elif op == "key":
         check_key(sym, net, P, int(case["se"]), rec)
+    elif op == "keyhist":
+        other = network_for_netcode(case["other"]) if case.get("other") else None
+        run_key_history(sym, net, P, int(case["se"]), case["source"], case["steps"].split(), rec, case.get("other"), other)
     elif op == "accept":
         check_accept(sym, net, P, _text(case["text"]), rec)
     elif op == "override":
